@@ -533,10 +533,11 @@ def check(prop, tier):
         }
         if not res.tool_errors:
             res.coverage.update(deep_walks(res, exe, wd, prop, tier))
-        if prop in ("C01", "C09", "C02", "C19") and not res.tool_errors:
+        if prop in ("C01", "C09", "C02", "C19", "C03", "C04", "C05", "C07", "C08") and not res.tool_errors:
             # the same statement at the loop: C01 judged each time the real loop goes back to waiting (bursts, tablet and key events in one wake-up);
             # C09 by what the loop does with the repeat requests (several events per wake-up, the last one ignored; a second firing with the same chord);
-            # C02 and C19 by what is down ON THE DEVICE (the fold of the writes that succeeded), with injected write failures
+            # C02 and C19 by what is down ON THE DEVICE (the fold of the writes that succeeded), with injected write failures;
+            # C03, C04, C05, C07, C08 by what reaches the device event by event (bursts; an event left unread, a step's output not written: e2.DELIVERY)
             import e2
             res.coverage.update(e2.loop_level(res, exe, wd, tier, prop))
         if tier == "thorough" and prop in ("C01", "C02", "C19") and not res.violations and not res.tool_errors:
